@@ -18,6 +18,8 @@ def run(chk):
     chk.configs = cfgs
     chk.rule("PIP.on-edge", "point-in-polygon routines (PointInPolygon, PointInOpPolygon): every cross product that decides a toggle is kept in a local that is tested for "
              "zero with IsOn returned - a point exactly on an edge is never classified by that edge's direction")
+    chk.rule("PRECISION.forwarded", "every function with a precision parameter uses it for more than validation and constructs no ClipperD with the default precision: "
+             "the PolyTreeD overloads compute the same rings as the PathsD overloads at every precision")
     chk.rule("SPLIT.recorded", "DoSplitOp / ProcessHorzJoins: on every tree-mode path after NewOutRec() the two halves are tied through a splits list before the "
              "iteration ends (RecursiveCheckOwners finds the real owner of a ring nested in the split-off half only through it)")
     chk.rule("OWNER.reparent", "SetOwner executed on every ownership forest over four records: outrec ends up under new_owner, the forest stays acyclic, bystanders are "
@@ -52,6 +54,8 @@ def run(chk):
         e10.rule_owner_assigned(db, chk, cfg)
         e10.rule_owner_reparent(db, chk, cfg)
         e10.rule_split_recorded(db, chk, cfg)
+        from ..engines import e8_scale as _e8p4
+        _e8p4.rule_precision_forwarded(db, chk, cfg)     # the tree overload of BooleanOp must work at the precision the paths overload works at
         from ..engines import e2_state as _e2, e10_pipeline as _e10
         if _e10.rule_bound_live(db, chk, cfg, lambda cls: _e2.E2(db, chk, cfg, cls)) < 4:
             from ..extract import AnalysisBroken as _AB
